@@ -88,8 +88,27 @@ class Check(object):
         return {}
 
 
+_PINNED = False
+
+
+def _pin():
+    """Pin each pool worker to one CPU: the baton threads of engine B then hand over on the same core."""
+    global _PINNED
+    if _PINNED:
+        return
+    _PINNED = True
+    try:
+        ident = multiprocessing.current_process()._identity
+        if ident:
+            cpus = sorted(os.sched_getaffinity(0))
+            os.sched_setaffinity(0, {cpus[(ident[0] - 1) % len(cpus)]})
+    except (AttributeError, OSError):
+        pass
+
+
 def _worker(args):
     mod, job = args
+    _pin()
     try:
         check = load_check(mod)
         r = check.run_job(job)
